@@ -332,6 +332,30 @@ func runGraphCase(out *rec.Out, fam string, g *eng.Graph, vars map[string]any, v
 		out.Begin(fam)
 		defer out.End()
 	}
+	if rng.Fork().Intn(4) == 0 {
+		// ANOTHER document ran earlier in this program: the same element ids, every condition different (`false`), other
+		// data. Nothing of it may be left when the document under test runs.
+		saved := make([]*eng.Cond, len(g.Flows))
+		for i, f := range g.Flows {
+			saved[i] = f.Cond
+			if f.Cond != nil {
+				f.Cond = &eng.Cond{Op: "false"}
+			}
+		}
+		decoy := g.XML()
+		for i, f := range g.Flows {
+			f.Cond = saved[i]
+		}
+		other := map[string]any{}
+		for k := range vars {
+			other[k] = 2
+		}
+		if in0, _, err := eng.Start(decoy, other); err == nil {
+			in0.Quiesce(2 * time.Second)
+			in0.Stop(2 * time.Second)
+			stats["cases_after_an_earlier_document_with_the_same_ids"]++
+		}
+	}
 	in, defs, err := eng.Start(xmlText, vars)
 	if err != nil {
 		out.Line("harness-error %v", err)
